@@ -47,7 +47,6 @@ type stressProg struct {
 	Programs map[string][]string `json:"programs"`
 }
 
-
 func stressMain(args []string) int {
 	fs := flag.NewFlagSet("stress", flag.ExitOnError)
 	var cf commonFlags
